@@ -18,10 +18,20 @@ LEVEL = "exploration"
 SHAPES = [(), (0,), (1,), (3,), (2, 3), (2, 0)]
 DTYPES = ["float16", "float32", "float64", "int8", "int32", "int64", "bool"]
 GRADS = ["absent", "present", "viewgrad", "noncontig"]
-KINDS = ["leaf", "creator", "view"]
-FILES = ["str_npz", "str_bare", "path", "bytesio", "fileobj", "str_dotted", "path_bare", "path_dotted", "str_npz_upper"]
+KINDS = ["leaf", "creator", "view", "view_perm", "view_stridedT"]  # the last two: neither C- nor F-contiguous, axis order != memory order
+FILES = ["str_npz", "str_bare", "path", "bytesio", "fileobj", "str_dotted", "path_bare", "path_dotted", "str_npz_upper", "namedtemp", "spooled", "duck"]
 # path targets: (file name handed to save, as pathlib.Path?) ; the file written must be the one numpy.savez writes for that name
 NAMED = {"str_bare": ("t", False), "str_dotted": ("t.v2", False), "path_bare": ("t", True), "path_dotted": ("run.a", True), "str_npz_upper": ("t.NPZ", False)}
+
+
+class _Duck:
+    """a file object by duck typing only (delegates to a BytesIO; not an io.IOBase)"""
+
+    def __init__(self, f):
+        self._f = f
+
+    def __getattr__(self, name):
+        return getattr(self._f, name)
 
 
 def cells(tier):
@@ -54,9 +64,19 @@ def build(shape, dt, const, g, k):
     elif k == "creator":
         src = mg.tensor(base_arr, constant=const)
         t = +src if dt != "bool" else mg.tensor(base_arr, constant=const)[...]
-    else:
+    elif k == "view":
         src = mg.tensor(base_arr, constant=const)
         t = src[...]
+    else:
+        if len(shape) != 2 or 0 in shape:
+            return None
+        big = (np.arange(2 * n).reshape(shape[0], shape[1], 2) * 0.75 - 1.0) if k == "view_perm" else (np.arange(2 * n).reshape(shape[0], 2 * shape[1]) * 0.75 - 1.0)
+        if dt == "bool":
+            big = big > 0
+        src = mg.tensor(big.astype(dt), constant=const)
+        t = mg.transpose(src, (1, 0, 2)) if k == "view_perm" else src[:, ::2].T
+        if t.data.flags.c_contiguous or t.data.flags.f_contiguous:
+            return None
     if g == "absent":
         return t
     if g == "present":
@@ -64,12 +84,12 @@ def build(shape, dt, const, g, k):
             (t * 2).sum().backward() if t.ndim else (t * 2).backward()
         else:
             # gradient set on a non-leaf: run backward from t itself
-            t.backward(np.full(shape, 1.5, dtype=dt))
+            t.backward(np.full(t.shape, 1.5, dtype=dt))
         return t
     if g == "viewgrad":
-        if k != "view":
+        if not k.startswith("view"):
             return None
-        (src * 3).sum().backward() if src.ndim else (src * 3).backward()
+        (src * mg.tensor(np.arange(src.size).reshape(src.shape).astype(dt), constant=True)).sum().backward() if src.ndim else (src * 3).backward()
         return t  # t.grad is available only through the view-gradient path
     if g == "noncontig":
         if len(shape) < 2 or 0 in shape:
@@ -124,6 +144,16 @@ def check(cell):
                 mg.save(b, t)
                 b.seek(0)
                 loaded = mg.load(b)
+            elif fk in ("namedtemp", "spooled", "duck"):
+                # binary file objects that are not io.IOBase subclasses (NumPy duck-types file objects)
+                fh = {"namedtemp": lambda: tempfile.NamedTemporaryFile(dir=tmp), "spooled": lambda: tempfile.SpooledTemporaryFile(max_size=10 ** 6),
+                      "duck": lambda: _Duck(io.BytesIO())}[fk]()
+                try:
+                    mg.save(fh, t)
+                    fh.seek(0)
+                    loaded = mg.load(fh)
+                finally:
+                    fh.close()
             else:
                 p = os.path.join(tmp, "t.npz")
                 with open(p, "wb") as fh:
